@@ -55,7 +55,7 @@ def run(ctx):
         for t in itertools.product(universe[:8], repeat=n):
             hist.append([("i", k, i + 1) for i, k in enumerate(t)] + [("f", k, 0) for k in universe[:8]])
     ops = ["table.run " + fmt(h) + " layout" for h in hist]
-    bad, a, b = pvlib.diff_streams(ctx, "table.run", ops, nontrivial=lambda l, x, y: True)
+    bad, a, b = pvlib.diff_streams(ctx, "table.run", ops, nontrivial=lambda l, x, y: True, stall=20)
     # oracle on the implementation's answers: finite map
     spec = pvlib.run_lines(pvlib.PVDRIVER, ["table.spec.run " + fmt(h) for h in hist])
 
@@ -66,7 +66,7 @@ def run(ctx):
         if "L" in w:
             w = w[:w.index("L")]
         return "ok " + " ".join(t.split("|")[0] for t in w[1:])
-    viol = [(o, answers(x), s) for o, x, s in zip(ops, a, spec) if answers(x) != s]
+    viol = [(o, answers(x), s) for o, x, s in zip(ops, a, spec) if answers(x) != s and "skipped" not in x]
     if viol:
         viol.sort(key=lambda v: len(v[0]))
         o, x, s = viol[0]
@@ -91,6 +91,8 @@ def run(ctx):
             pvlib.report_violation(ctx, "table-inv:" + h[:150], {"ops": [h], "layout_keys": o[10:2000], "verdict": r},
                                    no_input=True, summary="the implementation's bucket array violates the probing invariant the proofs rest on")
             break
+    if ctx.violations:
+        return          # the small domain already shows the failure; the large histories would only add waiting time
     # large random histories (duplicates at random distance), answers + growth points
     sizes = [20000, 300000] if ctx.tier == "quick" else [20000, 300000, 5000000]
     for n in sizes:
@@ -108,9 +110,9 @@ def run(ctx):
             if i % 7 == 0:
                 h.append(("f", rng.randrange(1, space), 0))
         op = "table.run " + fmt(h)
-        x = pvlib.run_lines(ctx.impl(), [op], env=pvlib.san_env(), timeout=1800)[0]
-        y = pvlib.run_lines(pvlib.PVDRIVER, [op], timeout=1800)[0]
-        s = pvlib.run_lines(pvlib.PVDRIVER, ["table.spec.run " + fmt(h)], timeout=1800)[0] if n <= 20000 else None
+        x = pvlib.run_lines(ctx.impl(), [op], env=pvlib.san_env(), timeout=1800, stall=600)[0]
+        y = pvlib.run_lines(pvlib.PVDRIVER, [op], timeout=1800, stall=1500)[0]
+        s = pvlib.run_lines(pvlib.PVDRIVER, ["table.spec.run " + fmt(h)], timeout=1800, stall=1500)[0] if n <= 20000 else None
         ctx.count("table.run.large", 1, [n])
         ctx.cov.setdefault("large_final_buckets", []).append(x.rsplit("|", 1)[-1][:12])
         if s is not None and answers(x) != s:
